@@ -67,7 +67,7 @@ def make_model(rng, family):
        'contact3' : the same with condim 3 (pyramidal or elliptic)
        'spheres'  : free spheres resting on each other and on the plane (sphere-sphere, plane-sphere)
        'capsules' : sphere-capsule and capsule-capsule pairs (MJX kernels regularised with 1e-6: looser tolerance)"""
-    M = {"family": family, "bodies": [], "wgeoms": [], "acts": [], "wsites": [], "tendons": [], "eqs": []}
+    M = {"family": family, "bodies": [], "wgeoms": [], "acts": [], "wsites": [], "tendons": [], "eqs": [], "sensors": []}
     opt = {"timestep": rng.choice([0.002, 0.004, 0.005]), "gravity": [0.0, 0.0, -9.81], "cone": 0, "integrator": 0, "solver": 2,
            "iterations": 100, "impratio": 1.0, "tolerance": 1e-10, "disableflags": 0}
     M["opt"] = opt
@@ -164,6 +164,75 @@ def make_model(rng, family):
             M["bodies"][b]["geoms"].append(geom(2, [rad], condim=cd, friction=fr, solref=rand_solref(rng, direct), solimp=rand_solimp(rng)))
         M["presets"] = presets
         M["collide"] = True
+        M["always_moving"] = True
+        return M
+
+    if family == "sensors":
+        # (sphere geoms only: accidental contacts between links then go through exact kernels, not the regularised capsule ones)
+        # frame sensors with and without a reference frame, object and reference on DIFFERENT moving bodies (both directions), on the same body,
+        # on bodies / inertial frames / sites; site sensors; joint, subtree, actuator sensors; everything moving
+        opt["integrator"] = rng.choice([0, 1])
+        nsite = [0]
+
+        def add_site(b, pos):
+            nm = "s%d" % nsite[0]
+            nsite[0] += 1
+            (M["wsites"] if b is None else M["bodies"][b]["sites"]).append({"name": nm, "pos": list(pos)})
+            return nm
+        R = add_body(-1, [0, 0, 1.5], rquat(rng))
+        add_joint(R, joint(0))
+        M["bodies"][R]["geoms"].append(geom(2, [0.05], pos=[0.05, 0, 0.02], density=3000.0))
+        A = add_body(R, [0.3, 0.05, 0], rquat(rng))
+        add_joint(A, joint(3, axis=unit([rng.uniform(-1, 1), 1, rng.uniform(-1, 1)]), damping=0.05))
+        M["bodies"][A]["geoms"].append(geom(2, [0.06], pos=[0.1, 0.02, 0]))
+        B = add_body(A, [0.25, 0, 0.1], rquat(rng))
+        add_joint(B, joint(1, damping=0.02))
+        M["bodies"][B]["geoms"].append(geom(2, [0.04], pos=[0.08, 0, 0]))
+        T = add_body(B, [0.2, 0, 0], rquat(rng))                                   # welded tool frame with mass
+        M["bodies"][T]["geoms"].append(geom(2, [0.03]))
+        D = add_body(-1, [3, 0, 1], rquat(rng))
+        add_joint(D, joint(3, axis=[0, 1, 0]))
+        add_joint(D, joint(2, axis=[1, 0, 0]))
+        M["bodies"][D]["geoms"].append(geom(2, [0.05], pos=[0.1, 0, 0]))
+        sites = {R: add_site(R, [0.1, 0.05, 0.02]), A: add_site(A, [0.05, 0.1, -0.02]), B: add_site(B, [0.12, -0.03, 0.04]), T: add_site(T, [0.02, 0.02, 0.05]),
+                 D: add_site(D, [0.2, 0.03, 0.0])}
+        wsite = add_site(None, [1.0, 0.5, 0.7])
+        bodies_ = [R, A, B, T, D]
+
+        def obj(b, kind):
+            return (kind, ("b", b)) if kind in ("body", "xbody") else ("site", ("s", sites[b]))
+        S = M["sensors"]
+        # every ordered pair of distinct bodies for the velocity sensors (the correction terms differ between object and reference)
+        pairs = [(a, c) for a in bodies_ for c in bodies_ if a != c]
+        rng.shuffle(pairs)
+        for tname in ("framelinvel", "frameangvel", "framepos", "framequat"):
+            for a, c in pairs[:6 if tname.endswith("vel") else 3]:
+                S.append((tname,) + obj(a, rng.choice(["body", "xbody", "site"])) + obj(c, rng.choice(["body", "xbody", "site"])))
+            b = rng.choice(bodies_)
+            S.append((tname,) + obj(b, "site") + obj(b, "xbody"))                       # object and reference on the same body
+            S.append((tname,) + obj(rng.choice(bodies_), "body") + ("none", None))      # world frame
+            S.append((tname,) + obj(rng.choice(bodies_), "site") + ("site", ("s", wsite)))     # static reference site
+        for tname in ("framexaxis", "frameyaxis", "framezaxis"):
+            a, c = rng.choice(pairs)
+            S.append((tname,) + obj(a, "site") + obj(c, "body"))
+        for tname in ("framelinacc", "frameangacc"):
+            for b in rng.sample(bodies_, 2):
+                S.append((tname,) + obj(b, rng.choice(["body", "xbody", "site"])) + ("none", None))
+        for tname in ("velocimeter", "gyro", "accelerometer"):
+            for b in rng.sample(bodies_, 2):
+                S.append((tname,) + obj(b, "site") + ("none", None))
+        for tname in ("subtreecom", "subtreelinvel", "subtreeangmom"):
+            S.append((tname, "body", ("b", rng.choice([R, A, D]))) + ("none", None))
+        S.append(("jointpos", "joint", ("j", 1), "none", None))
+        S.append(("jointvel", "joint", ("j", 4), "none", None))
+        S.append(("ballquat", "joint", ("j", 2), "none", None))
+        S.append(("ballangvel", "joint", ("j", 2), "none", None))
+        M["acts"].append({"joint": 1, "kind": 0, "gear": 1.5, "kp": 0.0})
+        M["acts"].append({"joint": 4, "kind": 1, "gear": 1.0, "kp": 5.0})
+        for tname in ("actuatorpos", "actuatorvel", "actuatorfrc"):
+            S.append((tname, "actuator", ("a", rng.randrange(2)), "none", None))
+        S.append(("clock", "none", None, "none", None))
+        M["collide"] = False
         M["always_moving"] = True
         return M
 
@@ -460,12 +529,37 @@ def to_xml(M):
         out.append('<actuator>')
         for a in M["acts"]:
             if a["kind"] == 0:
-                out.append('<motor joint="j%d" gear="%s"/>' % (a["joint"], r(a["gear"])))
+                out.append('<motor name="a%d" joint="j%d" gear="%s"/>' % (M["acts"].index(a), a["joint"], r(a["gear"])))
             else:
-                out.append('<position joint="j%d" gear="%s" kp="%s" kv="0"/>' % (a["joint"], r(a["gear"]), r(a["kp"])))
+                out.append('<position name="a%d" joint="j%d" gear="%s" kp="%s" kv="0"/>' % (M["acts"].index(a), a["joint"], r(a["gear"]), r(a["kp"])))
         out.append('</actuator>')
+    if M.get("sensors"):
+        out.append('<sensor>')
+        for tname, ot, on, rt, rn in M["sensors"]:
+            attr = ""
+            if tname in ("velocimeter", "gyro", "accelerometer"):
+                attr = ' site="%s"' % sname(on)
+            elif tname.startswith("joint") or tname.startswith("ball"):
+                attr = ' joint="%s"' % sname(on)
+            elif tname.startswith("actuator"):
+                attr = ' actuator="%s"' % sname(on)
+            elif tname.startswith("subtree"):
+                attr = ' body="%s"' % sname(on)
+            elif tname != "clock":
+                attr = ' objtype="%s" objname="%s"' % (ot, sname(on))
+                if rt != "none":
+                    attr += ' reftype="%s" refname="%s"' % (rt, sname(rn))
+            out.append('<%s%s/>' % (tname, attr))
+        out.append('</sensor>')
     out.append('</mujoco>')
     return "\n".join(out)
+
+
+def sname(ref):
+    """object name of a sensor reference: ("b" | "j" | "a", index) or ("s", site name)"""
+    if ref is None:
+        return "-"
+    return ref[1] if ref[0] == "s" else "%s%d" % ref
 
 
 def geom_line(kw, g):
@@ -503,6 +597,8 @@ def to_lines(M, states):
                                           " ".join("%d %d %s" % (kind, ref, r(coef)) for kind, ref, coef in t["wraps"])))
     for a in M["acts"]:
         L.append("act %d %d %s %s" % (a["joint"], a["kind"], r(a["gear"]), r(a["kp"])))
+    for tname, ot, on, rt, rn in M.get("sensors", []):
+        L.append("sensor %s %s %s %s %s" % (tname, ot, sname(on), rt, sname(rn)))
     L.append("END")
     for s in states:
         L.append("STATE %d %s %d %s %d %s" % (len(s["qpos"]), vec(s["qpos"]), len(s["qvel"]), vec(s["qvel"]), len(s["ctrl"]), vec(s["ctrl"])))
@@ -548,6 +644,11 @@ def reorder_depth_first(M):
         a["joint"] = jnew[a["joint"]]
     for t in M.get("tendons", []):
         t["wraps"] = [(kind, jnew[ref] if kind == 0 else ref, coef) for kind, ref, coef in t["wraps"]]
+    def ren(ref):
+        if ref is None or ref[0] in ("s", "a"):
+            return ref
+        return ("b", newidx[ref[1]]) if ref[0] == "b" else ("j", jnew[ref[1]])
+    M["sensors"] = [(t, ot, ren(on), rt, ren(rn)) for t, ot, on, rt, rn in M.get("sensors", [])]
     for e in M.get("eqs", []):
         if e["kind"] == 0:
             e["j1"] = jnew[e["j1"]]
